@@ -7,6 +7,7 @@ import (
 	"os"
 	"path/filepath"
 	"reflect"
+	"runtime"
 	"strings"
 	"testing"
 
@@ -89,6 +90,10 @@ func TestVerifC17Formats(t *testing.T) {
 	rapid.Check(t, func(t *rapid.T) {
 		tp, excl := verifc17.GenStruct(t, c17Cfg(verifc17.Cfg{Options: true, Embedded: true, MaxDepth: 3}))
 		for k, n := range excl {
+			if strings.HasPrefix(k, "generated:") {
+				st.ClassN("shape:"+strings.TrimPrefix(k, "generated:"), n)
+				continue
+			}
 			st.ClassN("excluded-shape:"+k, n)
 			for i := 0; i < n; i++ {
 				st.Excluded()
@@ -263,4 +268,85 @@ func c17Cfg(cfg verifc17.Cfg) verifc17.Cfg {
 	cfg.ExcludePtrToContainer = kf["D9a"] || kf["D9c"] || kf["D9"]
 	cfg.ExcludeMapOfPtrToPrim = kf["D9b"] || kf["D9"]
 	return cfg
+}
+
+// TestVerifC17Concurrent: "loading the same document rendered as JSON, YAML or TOML ...
+// yields identical results" holds for every load, whatever else the process is loading.
+// 8-32 (type, document) pairs with documents of very different sizes; each pair's result
+// is computed sequentially (all loaders agree), then one goroutine per pair loads its own
+// pair over and over through the byte loaders and conf.Load on files, and every result
+// must equal the sequential one.
+func TestVerifC17Concurrent(t *testing.T) {
+	logx.Disable()
+	st := verifkit.New(c17Unit("concurrent"))
+	defer st.Flush()
+	dir := t.TempDir()
+	rounds := verifkit.EnvInt("rounds", 12)
+	loaders := []verifc17.ConcLoader{
+		{Name: "LoadFromJsonBytes", Load: func(p *verifc17.Pair, k int) (reflect.Value, error) {
+			l := c17Load(p.T, conf.LoadFromJsonBytes, p.J)
+			return l.val, l.err
+		}},
+		{Name: "LoadFromYamlBytes", Load: func(p *verifc17.Pair, k int) (reflect.Value, error) {
+			l := c17Load(p.T, conf.LoadFromYamlBytes, p.Y)
+			return l.val, l.err
+		}},
+		{Name: "LoadFromTomlBytes", Load: func(p *verifc17.Pair, k int) (reflect.Value, error) {
+			l := c17Load(p.T, conf.LoadFromTomlBytes, p.M)
+			return l.val, l.err
+		}},
+	}
+	for _, ext := range []string{".json", ".yaml", ".toml"} {
+		ext := ext
+		loaders = append(loaders, verifc17.ConcLoader{Name: "Load(" + ext + ")",
+			Load: func(p *verifc17.Pair, k int) (reflect.Value, error) {
+				l := c17LoadFile(p.T, filepath.Join(dir, fmt.Sprintf("c17c-%d%s", k, ext)))
+				return l.val, l.err
+			}})
+	}
+	rapid.Check(t, func(t *rapid.T) {
+		n := rapid.IntRange(8, 32).Draw(t, "pairs")
+		procs := rapid.SampledFrom([]int{0, 1, 2, 4}).Draw(t, "gomaxprocs") // 0: as the process was started
+		gc := rapid.Bool().Draw(t, "gc")
+		var pairs []*verifc17.Pair
+		for tries := 0; len(pairs) < n && tries < 4*n; tries++ {
+			pad := rapid.SampledFrom([]int{0, 3, 40, 200, 600, 1500}).Draw(t, "pad")
+			p, ok := verifc17.GenPair(t, c17Cfg(verifc17.Cfg{Options: true, Embedded: true, MaxDepth: 3}), len(pairs), pad)
+			if !ok {
+				st.Class("unrepresentable")
+				continue
+			}
+			k := len(pairs)
+			for ext, b := range map[string][]byte{".json": p.J, ".yaml": p.Y, ".toml": p.M} {
+				if err := os.WriteFile(filepath.Join(dir, fmt.Sprintf("c17c-%d%s", k, ext)), b, 0o600); err != nil {
+					st.Note("write: %v", err)
+					return
+				}
+			}
+			pairs = append(pairs, p)
+		}
+		if procs > 0 {
+			defer runtime.GOMAXPROCS(runtime.GOMAXPROCS(procs))
+		}
+		loads, failures := verifc17.RunConcurrent(pairs, loaders, rounds, gc)
+		st.EvalN(int(loads))
+		st.Class(fmt.Sprintf("gomaxprocs=%d", runtime.GOMAXPROCS(0)))
+		if len(failures) > 0 {
+			t.Fatalf("%d goroutines, GOMAXPROCS=%d, gc=%v:\n%s", len(pairs), runtime.GOMAXPROCS(0), gc, strings.Join(failures, "\n"))
+		}
+		var fp strings.Builder
+		for _, p := range pairs {
+			fp.Write(p.J)
+		}
+		st.NonTrivial(fmt.Sprintf("concurrent %d pairs x %d rounds x %d loaders: %s", len(pairs), rounds, len(loaders), fp.String()))
+	})
+}
+
+// c17Unit: the evidence unit name (a unit of check.json that reuses a test under another
+// configuration, e.g. -race, sets VERIF_UNIT).
+func c17Unit(def string) string {
+	if v := os.Getenv("VERIF_UNIT"); v != "" {
+		return v
+	}
+	return def
 }
